@@ -87,10 +87,11 @@ def explore_instance(data, cfg, bufsize, end, want, acc, merge=True):
         for key, detail in out:
             viol.append((key, detail, list(ch.choices)))
 
-    st = engine.explore(run, merge=merge, on_exec=on_exec)
+    st = engine.explore(run, merge=merge, on_exec=on_exec, max_exec=MAX_EXEC_PER_INSTANCE)
     return st, viol, outcomes
 
 
+MAX_EXEC_PER_INSTANCE = 30000  # never reached on a wrapper that honours read(n); guards against state explosion under a broken one
 _FILE = {}
 
 
@@ -108,6 +109,8 @@ def do_instance(data, cfg, bufsize, end, acc):
     acc.transitions += st["executions"]
     acc.nstates += st["states"]
     acc.extra["instances"] += 1
+    if st["capped"]:
+        acc.caps.append(f"instance stream={data.hex()[:24]}.. bufsize={bufsize} end={end}: capped at {MAX_EXEC_PER_INSTANCE} executions")
     acc.extra["complete_executions"] += st["executions"] - st["pruned"]
     acc.outcomes[(len(want), min(len(data), 40) // 8, bufsize)] += 1
     for key, detail, choices in viol:
